@@ -218,13 +218,13 @@ def judge_concrete(case, prog, slots, vals, extra_check=None):
         try:
             interp = run_ref(case, vals, net)
         except refsem.OutOfScope:
-            return None
+            return extra_check(net, None) if extra_check is not None else None
         if net.aborted:
             return 'run aborted: ' + net.aborted
         mm, cons = refsem.compare_traces(norm_vm_trace(net.trace), interp.trace, slack=1e-6)
         if mm:
             return mm
-        for desc, c in cons:
+        for desc, c, *_ in cons:
             if not z3.is_true(z3.simplify(c)):
                 return 'field %s differs' % desc
         if extra_check is not None:
@@ -269,7 +269,7 @@ def explore_case(case, res, timeout_ms=4000, max_paths=4000, deadline=None, moni
             prop = False
             what = mm
         else:
-            prop = z3.And(*[c for _, c in cons])
+            prop = z3.And(*[c[1] for c in cons])
             what = None
         verdict, model = ctx.prove(prop)
         if verdict == 'unsat':
@@ -280,9 +280,12 @@ def explore_case(case, res, timeout_ms=4000, max_paths=4000, deadline=None, moni
             res.inconclusive.append('%s: %s' % (case.tag, what or 'fields'))
             continue
         res.reached.add(site)
-        # sat: find the failing field, then replay
+        # sat: prefer a robust counterexample (violated with a margin), find the field, replay
         if what is None:
-            for desc, c in cons:
+            rob = [c[2] for c in cons if len(c) > 2 and c[2] is not None]
+            if rob and ctx.check(z3.Or(*rob)) == 'sat':
+                model = ctx.solver.model()
+            for desc, c, *_ in cons:
                 if not z3.is_true(model.eval(c, model_completion=True)):
                     what = 'field %s' % desc
                     break
@@ -332,7 +335,12 @@ def _one_path(ctx, case, prog, slots, monitor, extra_sym):
     try:
         interp = run_ref(case, vals, net)
     except refsem.OutOfScope:
-        return ('skip', {})
+        # the reference semantics says nothing here; oracle-independent checks still apply
+        if extra_sym is None:
+            return ('skip', {})
+        cons = []
+        m2 = extra_sym(ctx, net, None, cons)
+        return ('v', {'mismatch': m2, 'cons': cons})
     if net.aborted:
         return ('v', {'mismatch': 'run aborted: %s' % net.aborted})
     mm, cons = refsem.compare_traces(norm_vm_trace(net.trace), interp.trace)
